@@ -58,6 +58,7 @@ type Contract struct {
 	Havoc    string // extern: "all" | "none" | "" (default by args)
 	Inline   bool
 	SplitReturns bool // "returns split": postconditions are proved at every return separately (large functions)
+	Opaque   []string // "opaque-call f": calls of f are over-approximated in this function (arbitrary results, inferred frame; f's contract is not used)
 	Lemmas   []string
 	LocalLemmas []*LocalLemma
 
@@ -528,6 +529,8 @@ func (w *World) parseBlocks(ls []rawLine, pkgPath string) error {
 			cur.Fresh = true
 		case "inline":
 			cur.Inline = true
+		case "opaque-call":
+			cur.Opaque = append(cur.Opaque, rest)
 		case "returns":
 			if rest != "split" {
 				return fail2("expected: returns split")
